@@ -27,7 +27,7 @@ RULE = (
     "on every further call; block_size/hop_size/block_dur equal the model; ValueError for the rejected ones. "
     "Non-trivial = overlap with >= 3 blocks, or max_read strictly inside a block, or visible data shorter than a block."
 )
-MUST_HIT = ["fractional_durations", "hop_lt_block_same_samples", "empty_visible_with_overlap", "over_reads", "overlap_3_blocks", "max_read_inside_block",
+MUST_HIT = ["source_already_partly_consumed", "fractional_durations", "hop_lt_block_same_samples", "empty_visible_with_overlap", "over_reads", "overlap_3_blocks", "max_read_inside_block",
             "visible_shorter_than_block", "rejected", "kind_wav_lazy", "kind_raw_lazy"]
 ASSUMPTIONS = ["durations are passed as k/rate; where the exact product lies within 1e-9 of an integer either neighbour is accepted for block/hop size"]
 BOUNDS = {"quick": dict(n=1200, maxN=60), "thorough": dict(n=8000, maxN=400)}
@@ -36,7 +36,13 @@ _ctr = [0]
 
 
 def content(N, bps, salt):
-    return bytes(_h(salt, i) & 255 for i in range(N * bps))
+    """distinct-looking bytes; above 4096 bytes a 4099-byte pattern is repeated (prime period, so any
+    misplaced slice still shows)"""
+    n = N * bps
+    if n <= 4096:
+        return bytes(_h(salt, i) & 255 for i in range(n))
+    unit = bytes(_h(salt, i) & 255 for i in range(4099))
+    return (unit * (n // 4099 + 1))[:n]
 
 
 def make_input(cfg, data):
@@ -47,6 +53,14 @@ def make_input(cfg, data):
     if kind == "bytes":
         return data, params, []
     if kind == "buffer":
+        k = cfg.get("prepos") or 0
+        if k:
+            # a source object that was already partly consumed before the reader gets it:
+            # the reader's audio is what remains
+            src = BufferAudioSource(content(k, sw * ch, cfg["salt"] + 1) + data, sr, sw, ch)
+            src.open()
+            src.read(k)
+            return src, {}, []
         return BufferAudioSource(data, sr, sw, ch), {}, []
     _ctr[0] += 1
     stem = os.path.join(tmpdir(), f"c10_{os.getpid()}_{_ctr[0]}")
@@ -186,6 +200,8 @@ def check_case(case, rec):
             classes.add("empty_visible_with_overlap")
         if cfg["over"] >= 2:
             classes.add("over_reads")
+        if cfg.get("prepos") and cfg["kind"] == "buffer":
+            classes.add("source_already_partly_consumed")
         rec.note(case, nt, classes, out=[list(s) for s in spans])
     finally:
         for p in paths:
@@ -205,6 +221,7 @@ def explicit_cases():
         dict(base, kind="raw_lazy", H=None, N=3),
         dict(base, kind="buffer", H=5, mr=[40, 0]),
         dict(base, H=5, fb=0.5, fh=0.0),
+        dict(base, kind="buffer", prepos=4, mr=[11, 0]),
         dict(base, H=2, fb=0.25, fh=0.75, kind="raw_lazy"),
         dict(base, reject="tiny_block"),
         dict(base, reject="zero_block"),
@@ -235,6 +252,8 @@ def strategy(draw, maxN):
             if cfg["H"] == B and cfg["fh"] > cfg["fb"]:
                 cfg["fh"] = draw(st.sampled_from([0, cfg["fb"]]))
     cfg["mr"] = draw(st.one_of(st.none(), st.tuples(st.integers(0, N + 10), st.sampled_from([0, 0.25, 0.75])).map(list)))
+    if cfg["kind"] == "buffer" and draw(st.booleans()):
+        cfg["prepos"] = draw(st.integers(1, 9))
     return cfg
 
 
